@@ -89,8 +89,7 @@ def solve_problem(P, ts, steps=2, dt=0.25):
         bf.b = np.asarray(co["b"], dtype=float).reshape(sh)
         bf.c = np.asarray(co["c"], dtype=float).reshape(np.asarray(bf._c).shape)
     for ax in P["periodic"]:
-        getattr(bc, U.SIDES[ax][0]).periodic = True
-        getattr(bc, U.SIDES[ax][1]).periodic = True
+        U.set_periodic(bc, ax, U.flag_mode(ax, sum(P["shape"]), len(ts)))
     phi = pf.CellVariable(mesh, np.array(P["phi0"], dtype=float), bc)
     D = U.face_from_arrays(mesh, P["D"])
     u = U.face_from_arrays(mesh, P["u"])
